@@ -376,6 +376,24 @@ func (e *Exec) checkObl(q *Term) (SatResult, map[string]uint64) {
 		e.stats.Unknowns--
 		r, m = e.check(q, 3*e.P.cfg.OblTimeoutMs, e.pathVars)
 	}
+	if r == Unknown {
+		// the long-lived incremental solver of this worker is stuck on the query (observed: one query in ~500 000 of
+		// the C15 harness, a different one in each run): ask fresh solver processes, cvc5 then z3
+		extra := e.ctx.And(q, e.domTerm())
+		for _, name := range []string{"cvc5", "z3"} {
+			s2, err := NewSolver(name, nil)
+			if err != nil {
+				continue
+			}
+			r2, m2 := s2.Check(e.pcS, extra, 2*e.P.cfg.OblTimeoutMs, e.pathVars)
+			s2.Close()
+			if r2 != Unknown {
+				e.stats.Unknowns--
+				e.intrHit["obligation decided by a fresh "+name+" process (the worker's incremental solver answered unknown)"]++
+				return r2, m2
+			}
+		}
+	}
 	return r, m
 }
 
